@@ -589,7 +589,11 @@ Stall ==
   /\ stopped = "no" /\ trig = {}
   /\ \A i \in DOMAIN pool : ~Active(pool[i]) /\ ~(Ready(i))
   /\ \E i \in DOMAIN pool : Final(pool[i]) \/ (pool[i].st = "waiting" /\ ~pool[i].rh /\ Pt(i) <= StopPt)
-  /\ ~ENABLED ReleaseRunahead /\ ~ENABLED ComputeRunahead
+  \* (is_stalled brings the limit up to date itself; a runahead-limited task within it that could run once
+  \*  released means "not stalled" - one whose prerequisites are not satisfied does not)
+  /\ ~ENABLED ComputeRunahead
+  /\ \A i \in DOMAIN pool : ~(pool[i].st = "waiting" /\ pool[i].rh /\ rhl # NoPoint /\ Pt(i) <= rhl
+                               /\ PrereqsOK(W, Name(i), Pt(i), pool[i].sat))
   /\ Quiet
   /\ stopped' = "stalled"
   /\ UNCHANGED <<pool, rhl, rhbase, q, cmds, jobs, net, acks, fb, db, done, ran, futseen, maxfut>>
